@@ -1,6 +1,7 @@
 package driver
 
 import (
+	sqldriver "database/sql/driver"
 	"sync"
 )
 
@@ -9,6 +10,7 @@ import (
 func init() {
 	verifHarnesses["HarnessC17Seq"] = HarnessC17Seq
 	verifHarnesses["HarnessC17Conc"] = HarnessC17Conc
+	verifHarnesses["HarnessC17Args"] = HarnessC17Args
 }
 
 var c17Rows = []drvRow{{"a": "x", "b": "p"}, {"a": "y"}, {"a": "x"}}
@@ -195,5 +197,72 @@ func HarnessC17Conc() {
 		c17Query("C17 reopened", c)
 		c.Close()
 	}
+	verifReach("end")
+}
+
+// HarnessC17Args: two goroutines run queries with bound arguments on handles of one data source
+// (one through a prepared statement, one directly, each with its own arguments) while a third
+// opens, queries and closes a handle on another file: every query returns the rows of its own
+// arguments, nothing blocks, and there is no data race between the handles.
+func HarnessC17Args() {
+	p1 := verifTempPath("c17d.updog")
+	p2 := verifTempPath("c17e.updog")
+	drvBuild(p1, c17Rows)
+	drvBuild(p2, c17RowsB)
+	d := newUpdogDriver()
+	c1, err := drvOpen(d, "file:"+p1)
+	if err != nil {
+		panic(err)
+	}
+	c2, err := drvOpen(d, "file:"+p1) // the same cached connection, as database/sql's pool gets it
+	if err != nil {
+		panic(err)
+	}
+	text := `a = $1`
+	check := func(tag, arg string, r sqldriver.Rows, err error) {
+		verifAssert(err == nil, tag+": a query with a bound argument failed")
+		if err == nil {
+			drvCheckRows(tag, drvQuery{text: text, match: isA(arg)}, c17Rows, r)
+		}
+	}
+	var wg sync.WaitGroup
+	verifPreemptions(1 + verifTier())
+	verifSchedule(true)
+	verifLockset(true)
+	wg.Add(3)
+	go func() {
+		defer wg.Done()
+		st, err := c1.Prepare(text)
+		verifAssert(err == nil, "C17: Prepare failed")
+		if err != nil {
+			return
+		}
+		r, err := st.Query([]sqldriver.Value{"x"})
+		check("C17 prepared statement next to other handles", "x", r, err)
+		st.Close()
+		r, err = c1.QueryContext(drvCtx, text, []sqldriver.NamedValue{{Ordinal: 1, Value: "x"}})
+		check("C17 direct query next to other handles", "x", r, err)
+	}()
+	go func() {
+		defer wg.Done()
+		r, err := c2.QueryContext(drvCtx, text, []sqldriver.NamedValue{{Ordinal: 1, Value: "y"}})
+		check("C17 direct query next to other handles", "y", r, err)
+	}()
+	go func() {
+		defer wg.Done()
+		c, err := drvOpen(d, "file:"+p2)
+		verifAssert(err == nil, "C17: opening another file failed")
+		if err != nil {
+			return
+		}
+		c17QueryRows("C17 other file", c, 0, c17RowsB)
+		verifAssert(c.Close() == nil, "C17: Close failed")
+	}()
+	wg.Wait()
+	verifLockset(false)
+	verifSchedule(false)
+	verifRaceFree("C17: queries with arguments on handles of one data source share state")
+	verifAssert(c1.Close() == nil && c2.Close() == nil, "C17: Close failed")
+	verifAssert(!verifFlockHeld(p1) && !verifFlockHeld(p2), "C17: a file stays locked after its last handle was closed")
 	verifReach("end")
 }
